@@ -244,6 +244,32 @@ class World08(World):
         self.enter_pool(r)
         return r
 
+    def op_artefact_variant(self, op, rng):
+        """A DIFFERENT code object that differs only in one serialization artefact (junk operand byte of a
+        no-argument opcode, CO_NESTED, an unreferenced constant): its decoded data must NOT equal the original's
+        (equal CodeData encode to identical code objects), although both normalize alike."""
+        from . import bytecode
+
+        s = self.slots[op["in"][0]]
+        new = None
+        r2 = prng.PRNG(op["seed"])
+        for _ in range(4):
+            try:
+                new = bytecode.perturb_once(s.value, op["kind"], r2, {})
+            except Exception:
+                new = None
+            if new is not None and fp.code_fp(new) != fp.code_fp(s.value) and bytecode.same_program(s.value, new):
+                break
+            new = None
+        if new is None:
+            self.count("artefact_variant_not_applicable")
+            return None
+        r = self.add_slot(op, "code", new, s.lineage, s.route + ["artefact:" + op["kind"]], parent=s)
+        self.faults_fired += 1
+        self.count("fault_artefact_variant_" + op["kind"])
+        self.event("artefact_variant", op["id"], op["kind"])
+        return r
+
     def op_marshal_trip(self, op, rng):
         r = self._reload(op, lambda c: marshal.loads(marshal.dumps(c)), "marshal_trip", kind="code")
         return r
@@ -541,7 +567,7 @@ def collect_constants(d, out):
 
 def route_tag(s):
     """Route class of a pool member, for fingerprints: the identity-relevant steps only."""
-    keep = [x for x in s.route if x in ("normalize", "from_json_data", "pickle_trip", "clone", "marshal_trip", "deepcopy_data", "graft")]
+    keep = [x for x in s.route if x in ("normalize", "from_json_data", "pickle_trip", "clone", "marshal_trip", "deepcopy_data", "graft") or x.startswith("artefact:")]
     # collapse repeats
     out = []
     for x in keep:
@@ -575,6 +601,40 @@ def all_table_exprs():
     return wrapped
 
 
+def reload_stage(items, tree):
+    """Cross-process stage (restart: only the pickled bytes survive; this process has ANOTHER hash seed):
+    the reloaded value must equal, hash like, and share a set bucket with the value decoded here from the
+    same program."""
+    import base64
+    import code_data
+
+    out = {"checked": 0, "violations": []}
+    for it in items:
+        cop = it["cop"]
+        src = workload.program_source(cop["prog"], tree)
+        code = workload.try_compile(src, cop.get("filename", "<sim>"), cop.get("mode", "exec"), cop.get("optimize", 0))
+        if code is None:
+            continue
+        y = code_data.CodeData.from_code(code)
+        try:
+            x = pickle.loads(base64.b64decode(it["pickle"]))
+        except Exception as e:
+            out["violations"].append({"property": "C08", "fingerprint": "C08/V0-not-picklable/reload/" + type(e).__name__, "invariant": "V0-not-picklable", "item": it["run"]})
+            continue
+        out["checked"] += 1
+        if fp.digest(fp.data_fp(x)) != it["fp"]:
+            out["violations"].append({"property": "C08", "fingerprint": "C08/V7-reload-differs/pickle/other-process", "invariant": "V7-reload-differs", "item": it["run"]})
+            continue
+        res = sched._outcome(lambda: (x == y, y == x, hash(x) == hash(y), len({x, y}) == 1, y in {x}))
+        if res[0] != "ok":
+            out["violations"].append({"property": "C08", "fingerprint": "C08/V2-eq-raises/reload/" + res[1], "invariant": "V2-eq-raises", "item": it["run"]})
+        elif not (res[1][0] and res[1][1]):
+            out["violations"].append({"property": "C08", "fingerprint": "C08/V5-same-code-but-unequal/decode~pickle-from-other-process/?", "invariant": "V5-same-code-but-unequal", "item": it["run"]})
+        elif not (res[1][2] and res[1][3] and res[1][4]):
+            out["violations"].append({"property": "C08", "fingerprint": "C08/V4-equal-but-hash-differs/decode~pickle-from-other-process/CodeData", "invariant": "V4-equal-but-hash-differs", "item": it["run"]})
+    return out
+
+
 def swarm_c08(rng, tier):
     return {
         "routes": rng.randint(3, 9 if tier == "quick" else 12),
@@ -585,7 +645,7 @@ def swarm_c08(rng, tier):
     }
 
 
-ROUTE_STEPS = ["normalize", "code_trip", "json_trip", "pickle_trip", "clone", "deepcopy_data", "marshal_decode", "recompile"]
+ROUTE_STEPS = ["normalize", "code_trip", "json_trip", "pickle_trip", "clone", "deepcopy_data", "marshal_decode", "recompile", "artefact_variant"]
 
 
 def run_c08(seed, tree, tier, known):
@@ -640,6 +700,15 @@ def run_c08(seed, tree, tier, known):
             return w, cfg
         if d is not None:
             datas.append(d)
+            if not hasattr(w, "carry") and s.route == ["compile"] and s.meta.get("w", 0) <= 1500:
+                # durable copy for the cross-process stage: hashed first (any per-object hash cache is warm), then pickled
+                import base64
+
+                try:
+                    hash(d.value)
+                    w.carry = {"cop": cop, "pickle": base64.b64encode(pickle.dumps(d.value, 2)).decode("ascii"), "fp": fp.digest(d.snap)}
+                except Exception:
+                    pass
     if cfg["twins"]:
         w.faults_fired += 1
         w.count("fault_twin")
@@ -679,6 +748,12 @@ def run_c08(seed, tree, tier, known):
             s, cop = rng.choice(codes)
             if s.id in w.slots:
                 c2 = w.execute({"op": "marshal_trip", "in": [s.id]}, rng)
+                if c2 is not None:
+                    new = w.execute({"op": "from_code", "in": [c2.id]}, rng)
+        elif k == "artefact_variant":
+            s, cop = rng.choice(codes)
+            if s.id in w.slots:
+                c2 = w.execute({"op": "artefact_variant", "in": [s.id], "kind": rng.choice(["noarg", "noarg", "nested_flag", "append"]), "seed": rng.next64()}, rng)
                 if c2 is not None:
                     new = w.execute({"op": "from_code", "in": [c2.id]}, rng)
         elif k == "recompile":
